@@ -8,6 +8,13 @@ from concurrent.futures import ThreadPoolExecutor
 
 def mutants(src):
     out = []
+    if src == 'regressions':
+        for d in sorted(glob.glob('/verif/regressions/*/patch.diff')):
+            mid = d.split('/')[-2]
+            meta = json.load(open(os.path.dirname(d) + '/meta.json'))
+            for p in meta['must_be_reported_by']:
+                out.append((mid, p, d))
+        return out
     if src:
         for d in sorted(glob.glob(src + '/C*/_out/m*.diff')):
             prop = d.split('/')[-3]; k = re.search(r'm(\d+)\.diff', d).group(1)
